@@ -35,6 +35,12 @@ class Obj:
         return self.items[k]
     def state(self):
         return (self.a, self.b, sorted(self.items.items(), key=repr))
+    @property
+    def tick(self):
+        """an attribute whose every read shows: it counts them"""
+        LOG.append(("tick",))
+        self.items["ticks"] = self.items.get("ticks", 0) + 1
+        return self.items["ticks"]
 
 O = Obj()
 
@@ -55,6 +61,19 @@ def RQ(k):
     """an operation that raises something that is not an Exception"""
     LOG.append(("RQ", k))
     raise Quit(k)
+
+def SUB(k, n):
+    """a sub-generator for `yield from`: yields n values, logs what it is sent, returns a sum of it"""
+    total = 0
+    try:
+        for i in range(n):
+            got = yield k * 100 + i
+            LOG.append(("SUB", k, _plain(got)))
+            if isinstance(got, int):
+                total += got
+    finally:
+        LOG.append(("SUB-end", k))
+    return total
 
 def C(k):
     """a condition: the next boolean of the script (False when exhausted)"""
@@ -154,8 +173,11 @@ class Gen:
             return "(lambda q: q + %s)(%s)" % (self.expr(bound, 2), self.expr(bound, 2))
         if r < 0.85 and "comp" in self.features:
             return "sum([z * 2 for z in T(%d, 'list', %d)])" % (self.nk(), self.rng.randrange(0, 3))
-        if r < 0.9:
+        if r < 0.88:
             return "GLOB1 + %s" % self.expr(bound, depth + 1)
+        if r < 0.92:
+            # an attribute read (of the object the attribute stores write to)
+            return "O.%s" % self.rng.choice(["a", "b"])
         return "(%s, %s)" % (self.expr(bound, depth + 1), self.expr(bound, depth + 1))
 
     # ---- statements: return (list of stmt tuples, new bound set)
@@ -178,7 +200,8 @@ class Gen:
         rng = self.rng
         choices = ["assign"] * 5
         for f, w in (("tuple", 2), ("star", 1), ("nested", 1), ("attr", 1), ("sub", 1), ("chain", 1), ("aug", 2),
-                     ("ann", 2), ("import", 1), ("expr", 1), ("decl", 0), ("walrus", 1), ("undef", 0), ("auglist", 1)):
+                     ("ann", 2), ("import", 1), ("expr", 1), ("decl", 0), ("walrus", 1), ("undef", 0), ("auglist", 1),
+                     ("yieldfrom", 0)):
             if f in F or f == "expr" or f in self.weights:
                 choices += [f] * self.weights.get(f, w)
         if depth < 2:
@@ -195,6 +218,14 @@ class Gen:
             choices += ["yield"] * 3
         kind = rng.choice(choices)
         v = rng.choice(VARS)
+        if kind == "yieldfrom" and not self.is_generator:
+            kind = "assign"
+        if kind == "yieldfrom":
+            # delegation to a sub-generator (what is sent goes to it) or to a plain iterable
+            tgt = rng.choice([None, v])
+            src = "SUB(%d, %d)" % (self.nk(), rng.randrange(0, 3)) if rng.random() < 0.7 else \
+                "T(%d, 'list', %d)" % (self.nk(), rng.randrange(0, 3))
+            return ("yieldfrom", tgt, src), (bound | {tgt}) if tgt else bound
         if kind == "assign":
             return ("assign", [("name", v)], self.expr(bound)), bound | {v}
         if kind == "tuple":
@@ -232,7 +263,10 @@ class Gen:
             return ("assign", [("sub", "O", "H(%d)" % self.nk())], self.expr(bound)), bound
         if kind == "chain":
             vs = rng.sample(VARS, 2)
-            return ("assign", [("name", vs[0]), ("name", vs[1])], self.expr(bound)), bound | set(vs)
+            r = rng.random()
+            # the value of a chained assignment is evaluated ONCE, also when it is a bare attribute read
+            value = "O.tick" if r < 0.15 else "O.%s" % rng.choice(["a", "b"]) if r < 0.3 else self.expr(bound)
+            return ("assign", [("name", vs[0]), ("name", vs[1])], value), bound | set(vs)
         if kind == "aug":
             cands = [x for x in VARS if x in bound]
             if not cands:
@@ -242,6 +276,9 @@ class Gen:
             return ("ann", v, rng.choice(["int", "'@T'", "'@T & @U'"]), self.expr(bound)), bound | {v}
         if kind == "walrus":
             w = rng.choice([x for x in VARS if x != v])
+            if rng.random() < 0.15:
+                # the assignment expression sits in the index of an assignment target
+                return ("subwalrus", w, self.expr(bound), self.expr(bound)), bound | {w}
             if v in bound and rng.random() < 0.35:
                 # the assignment expression is the value of an augmented assignment: v += (w := e)
                 return ("walrus", v, w, self.expr(bound), "aug"), bound | {v, w}
@@ -430,6 +467,14 @@ def render(fn, twin=False, subst=None, ann_params=None, decl=None):
                 else:
                     lines.append("%s%s = (%s := %s) + 1" % (ind, s[1], s[2], inner))
                 lines.extend(post_bind([s[1]], ind))
+            elif k == "subwalrus":
+                # O[(w := inner)] = value: the value is evaluated first, then the index (a binding like any other)
+                inner = s[2]
+                if subst and s[1] == subst[0]:
+                    inner = "%s(%r, %s, LATEST)" % (subst[1], s[1], inner)
+                if twin:
+                    inner = "BL(%r, %s)" % (s[1], inner)
+                lines.append("%sO[(%s := %s)] = %s" % (ind, s[1], inner, s[3]))
             elif k == "aug":
                 lines.append("%s%s %s= %s" % (ind, target_text(s[1]), s[2], s[3]))
                 lines.extend(post_bind(target_names(s[1]), ind))
@@ -471,6 +516,12 @@ def render(fn, twin=False, subst=None, ann_params=None, decl=None):
                     lines.append("%sreturn%s" % (ind, " " + s[1] if s[1] is not None else ""))
             elif k in ("break", "continue", "pass"):
                 lines.append(ind + k)
+            elif k == "yieldfrom":
+                if s[1]:
+                    lines.append("%s%s = yield from %s" % (ind, s[1], s[2]))
+                    lines.extend(post_bind([s[1]], ind))
+                else:
+                    lines.append("%syield from %s" % (ind, s[2]))
             elif k == "yield":
                 if s[1]:
                     lines.append("%s%s = yield %s" % (ind, s[1], s[2]))
@@ -585,7 +636,9 @@ def bound_names(fn):
                 names.append(s[2] or s[1].split(".")[0])
             elif k == "from":
                 names.append(s[3] or s[2])
-            elif k == "yield" and s[1]:
+            elif k in ("yield", "yieldfrom") and s[1]:
+                names.append(s[1])
+            elif k == "subwalrus":
                 names.append(s[1])
             elif k == "for":
                 names.extend(target_names(s[1]))
